@@ -1,6 +1,7 @@
 use anyhow::Result;
 use blots_core::{
     ast::{Expr, Spanned},
+    ast_to_source::do_statement_line,
     environment::Environment,
     error::RuntimeError,
     expressions::{evaluate_pairs, pairs_to_expr_with_comments},
@@ -502,7 +503,11 @@ pub fn format_blots(source: &str, max_columns: Option<usize>) -> Result<JsValue,
                         // Format as expression
                         let expr = pairs_to_expr_with_comments(first_pair.into_inner())
                             .map_err(|e| JsError::new(&format!("AST conversion error: {}", e)))?;
-                        format_expr(&expr, max_columns)
+                        // A line that begins with `-` would continue the line above it
+                        do_statement_line(
+                            formatted_statements.len(),
+                            format_expr(&expr, max_columns),
+                        )
                     }
                 };
 
